@@ -111,6 +111,12 @@ package upstream
 //@ prop C19 C17
 //@ ensures[nonnil:upstream-has-its-reverse-proxy] result != nil && typeis(result, "*httpUpstreamProxy") && as(result, "*httpUpstreamProxy").handler == ret(newReverseProxy)
 //@     && ret(newReverseProxy) != nil
+//@ prop C17
+//@ at call newReverseProxy assert[requests-start-at-the-upstreams-root] (arg(newReverseProxy, 0).Scheme != "unix" ==> arg(newReverseProxy, 0).Path == "")
+//@     && arg(newReverseProxy, 0).Scheme == old(u.Scheme) && arg(newReverseProxy, 0).Host == old(u.Host) && arg(newReverseProxy, 1) == upstream
+//@ at call newWebSocketReverseProxy assert[websocket-requests-go-to-the-very-same-target] arg(newWebSocketReverseProxy, 0) == arg(newReverseProxy, 0)
+//@     && arg(newWebSocketReverseProxy, 1) == upstream.InsecureSkipTLSVerify
+//@ at call newWebSocketReverseProxy assert[websocket-proxy-only-unless-switched-off] upstream.ProxyWebSockets == nil || deref(upstream.ProxyWebSockets)
 //@ prop C19
 //@ scan[nonnil:http-upstreams-allocated-by-the-constructor] alloc-of pkg/upstream.httpUpstreamProxy pkg/upstream.newHTTPUpstreamProxy
 //@ scan[nonnil:multi-upstream-allocated-by-the-constructor] alloc-of pkg/upstream.multiUpstreamProxy pkg/upstream.NewProxy
@@ -120,3 +126,26 @@ package upstream
 //@ prop C19 C17
 //@ ensures[nonnil:a-reverse-proxy] result != nil
 //@ ensures[single-host-proxy-to-the-target] result == ret(httputil.NewSingleHostReverseProxy) && arg(httputil.NewSingleHostReverseProxy, 0) == target
+
+// ------------------------------------------------------------------ C19 / C17: a static upstream answers with the configured status code, which
+// validation confined to what net/http accepts (WriteHeader panics outside 100..999); 200 when none is configured
+//@ stable staticResponseHandler.*
+//@ func newStaticResponseHandler
+//@ safety
+//@ nilable code
+//@ prop C19 C17
+//@ ensures[the-configured-code-or-200] typeis(result, "*staticResponseHandler") && as(result, "*staticResponseHandler").upstream == upstream
+//@     && as(result, "*staticResponseHandler").code == ite(code == nil, 200, old(deref(code)))
+
+//@ func derefStaticCode
+//@ safety
+//@ nomod
+//@ nilable code
+//@ prop C19 C17
+//@ ensures[the-configured-code-or-200] result == ite(code == nil, 200, deref(code))
+
+//@ func (*staticResponseHandler).ServeHTTP
+//@ prop C19 C17
+//@ requires[config:static-code-is-a-status-code] 100 <= s.code && s.code <= 999
+//@ at call WriteHeader assert[answers-with-the-configured-code] arg(WriteHeader, 0) == s.code
+
